@@ -21,7 +21,7 @@ try:  # the six flags of the Text model belong to property C05 (pending_fixes/C0
     from props.c05 import FLAGS as TEXT_FLAGS
 except Exception:  # pragma: no cover
     TEXT_FLAGS = "111111"
-JUSTIFY_NEG = 1  # Lines.justify center/right: pad_left(negative) when the line stays wider than the width (overflow "ignore")
+JUSTIFY_NEG = 0  # Lines.justify center/right: pad_left(negative) when the line stays wider than the width (overflow "ignore"); repaired by /repo commit 90b2e96
 FLAGS = TEXT_FLAGS + str(JUSTIFY_NEG)
 # development aid only (validate pending_fixes against a patched checkout): VERIF_C02_FLAGS=0000000 VERIF_REPO=<worktree>
 FLAGS = os.environ.get("VERIF_C02_FLAGS", FLAGS)
@@ -434,29 +434,34 @@ MANIFEST = {
         "arbitrary opaque style names, and unbounded texts / span sets / widths >= 2.  Proved: divideLine_offsets "
         "(strictly increasing, inside (0,len)); divideLine_pieces_fit; break_only_when_too_wide (an offset between two "
         "non-whitespace characters lies in a regex word whose stripped form is wider than the width, and only with fold); "
-        "wrap_lines_fit (whole Text.wrap, every justify mode incl. full, every variant: each line <= width unless overflow "
-        "ignore); divide_effStyle (Text.divide at ascending offsets cuts the styled string: every character keeps base "
-        "style + covering spans in original order, for overlapping/nested/duplicated/empty spans); wrapLine_fold_keeps "
-        "(per paragraph, fold, justify default/left/center/right: the non-whitespace (character, effective style) stream "
-        "of the produced lines equals the paragraph's); wrap_fold_keeps_nonspace_partial (the same for the whole "
-        "Text.wrap incl. the newline split, texts without tabs); wrapLine_style_preserved (every overflow mode, no_wrap "
-        "on or off: each produced line is blanks + a prefix of its piece of the styled string, every character with exactly "
-        "its effective style, + blanks/ellipsis).  Two genuine defects of rich 9.10.0 are carried as variant flags with "
-        "machine-checked witnesses (old_wrap_reorders_styles, old_justify_negative_pad); the full theorems are proved for "
-        "the repaired variant.  The model is tied to the real code on every run by differential execution (complete line "
-        "state + rendering through the real Text.render) and the four statements are evaluated directly on rich's output."
+        "wrap_lines_fit (whole Text.wrap, every justify mode, every variant: each line <= width unless overflow ignore); "
+        "divide_effStyle (Text.divide at ascending offsets cuts the styled string: every character keeps base style + "
+        "covering spans in original order, for overlapping/nested/duplicated/empty spans); wrapLine_fold_keeps / "
+        "wrapLine_fold_keeps_full / wrapLine_fold_keeps_every_justify (per paragraph, fold, all five justify modes: the "
+        "non-whitespace (character, effective style) stream of the produced lines equals the paragraph's; exact for "
+        "default/left/center/right, modulo the null style '' for full); wrap_fold_keeps_nonspace (the whole Text.wrap: "
+        "newline split, tab expansion with any tab size >= 1, every justify mode, fold: the call succeeds and the "
+        "non-whitespace characters of all lines are exactly the text's, in order, each with its effective style in the "
+        "normal form 'null style erased, adjacent repetitions merged'); wrap_fold_keeps_nonspace_notabs / "
+        "wrap_fold_keeps_styles_exact (sharper comparisons for tab-free texts); wrapLine_style_preserved (every overflow mode, no_wrap on or off, justify other than full: each produced "
+        "line is blanks + a prefix of its piece of the styled string, every character with exactly its effective style, + "
+        "blanks/ellipsis).  Two genuine defects of rich 9.10.0 (span order after divide: found by C05, reproduced through "
+        "wrap; negative pad_left in Lines.justify: found here, /repo commit 90b2e96) are carried as variant flags with "
+        "machine-checked witnesses (old_wrap_reorders_styles, old_justify_negative_pad).  The model is tied to the real "
+        "code on every run by differential execution (complete line state + rendering through the real Text.render) and "
+        "the four statements are evaluated directly on rich's output."
     ),
     "note": (
-        "partial: (1) justify='full' (Text.split(' ') + Text('').join) is modelled and compared but the keeps/style theorems "
-        "are proved for default/left/center/right only (wrap_lines_fit covers full); (2) tab expansion (Text.expand_tabs, "
-        "C05) has no proved view lemma: the whole-text theorem assumes no tab, the per-paragraph theorems speak about the "
-        "paragraph after tab expansion; (3) styles are opaque names: 'carries exactly the style' is equality of the list of "
-        "names applied in order (free monoid), and in the direct evaluation equality up to the laws every rich Style "
-        "satisfies ('' neutral, x+x = x, x+y+x = y+x) because tab expansion and full justification re-apply the base style; "
-        "(4) theorems are about the repaired variant (pending_fixes/C05-divide-order-alias.diff, "
-        "pending_fixes/C02-justify-negative-pad.diff); on the released code the check reports both defects; (5) the "
-        "whitespace class is the running Python's str.isspace (generated table), width < 2, negative widths, control "
-        "characters and inverted spans are outside the statement."
+        "partial: (1) because Text.expand_tabs re-applies the base style and Text('').join puts the null style in front, "
+        "the headline theorem compares effective styles in a normal form (null erased, adjacent repetitions merged) - "
+        "exact equality is proved for tab-free texts with justify other than full; (2) the every-overflow-mode statement "
+        "(wrapLine_style_preserved) is per paragraph after tab expansion and for justify default/left/center/right; for "
+        "justify='full' style preservation is proved for overflow 'fold' only (wrap_lines_fit covers every mode); (3) styles are opaque names: 'carries exactly the style' is "
+        "equality of the list of names applied in order (free monoid), modulo the null style where full justification is "
+        "involved; in the direct evaluation equality is up to the laws every rich Style satisfies ('' neutral, x+x = x, "
+        "x+y+x = y+x) because tab expansion and full justification re-apply the base style; (4) the whitespace class is "
+        "the running Python's str.isspace (generated table); width < 2, negative widths, control characters (C05) and "
+        "inverted spans are outside the statement."
     ),
     "design_ref": "DESIGN.md section 7 (C02), section 8",
 }
